@@ -18,13 +18,18 @@ from corr import exec_common as X
 from corr import C04 as K
 from gen import operation as go
 from gen import schema as gs
+from gen import leading_node as LN
+from gen import overlap_memo as OM
 
 PROPERTY = "C05"
 RULE = ("three streams over generated schemas: valid generated operations, hand-shaped adversarial documents (duplicate "
         "fields with list/object/null/variable arguments, fragments on unknown types, nested multi-letter fragments with "
         "conflicts, a variable at two differently typed positions, cycles, unknown names, leaf/composite misuse, bad "
         "directives) and token mutants of valid documents; distinct by (schema, text); non-trivial = parsed and either "
-        "rejected with >=1 error, or accepted and executed with >=1 resolved field")
+        "rejected with >=1 error, or accepted and executed with >=1 resolved field; PLUS deterministic classes under FIXED worlds: "
+        "divergent-args (interface field whose implementations declare different arguments), leading-node (gen/leading_node.py: one "
+        "field node heading two different merged node lists; fixed schema + every generated schema), exclusive-then-strict "
+        "(gen/overlap_memo.py: a (selection set, fragment) pair compared first under exclusive parents then strictly), rootless operations")
 ASSUMPTIONS = [
     "typed worlds only for the safety implication (resolver results of the declared types, ResolverError allowed)",
     "variables rejected by coerce_variable_values are not 'accepted variables' and end the case",
@@ -237,7 +242,7 @@ def check_unlocated(ctx, schema, base, stream, label, text, located_ast, located
                      "verdict on the located parse of the same text", dict(base, unlocated=kind, located=located_msgs[:5], got=msgs[:5]))
 
 
-def one_document(ctx, schema, holder, dump, sdl, enum_kind, label, text, variables, opname, lean_batch, stream):
+def one_document(ctx, schema, holder, dump, sdl, enum_kind, label, text, variables, opname, lean_batch, stream, seeds=None):
     from py_gql.lang import parse
     from py_gql.exc import GraphQLSyntaxError
     from py_gql.validation import validate_ast
@@ -284,10 +289,11 @@ def one_document(ctx, schema, holder, dump, sdl, enum_kind, label, text, variabl
     ctx.stat(stream + ":accepted")
     if label:
         ctx.stat("accepted-adversarial:" + label)
-    for k in range(6 if (label or "").startswith(("same-key", "untyped-inline", "merge-safe")) else 2):
+    for k in range(len(seeds) if seeds is not None else 6 if (label or "").startswith(("same-key", "untyped-inline", "merge-safe")) else 2):
         c = K.Case()
         c.sdl, c.enum_kind, c.text, c.variables, c.opname = sdl, enum_kind, text, variables, opname
-        c.seed, c.mode, c.features = rng.randint(0, 10 ** 6), 0, set()
+        # `seeds`: a named probe with FIXED worlds (deterministic class: independent of what consumed ctx.rng before)
+        c.seed, c.mode, c.features = (seeds[k] if seeds is not None else rng.randint(0, 10 ** 6)), 0, set()
         c.impl = c.docj = c.coerced = None
         try:
             st = K.run_one(schema, holder, dump, c)
@@ -448,6 +454,7 @@ def run(ctx):
     use_lean = ctx.model_ok and ctx.driver.available()
     lean_batch = [] if use_lean else None
     fixed_cases(ctx, lean_batch)
+    built = []
     for si in range(n_schemas):
         if ctx.time_left() < 15:
             ctx.notes.append("stopped early at schema %d (time)" % si)
@@ -488,9 +495,19 @@ def run(ctx):
             if st != "syntax" and (stream == "history" or (st == "accepted" and stream != "valid") or rng.random() < 0.08):
                 judged.append((stream, label, text, vs, opname, st, [d[2] for d in docs[:di]]))
         compare_with_fresh_process(ctx, sdl, enum_kind, judged)
+        built.append((schema, holder, dump, sdl, enum_kind, desc))
         if use_lean and len(lean_batch) >= 150:
             flush_lean(ctx, lean_batch)
             del lean_batch[:]
+    # generated CLASS leading-node on every schema of this run (a function of the schema description; fixed worlds), after
+    # the random streams so that it does not shift them
+    for schema, holder, dump, sdl, enum_kind, desc in built:
+        if ctx.time_left() < 8:
+            ctx.notes.append("leading-node class stopped early (time)")
+            break
+        for label, text, vs in LN.leading_node_documents(desc) + OM.exclusive_then_strict_documents(desc):
+            ctx.stat("class:" + label)
+            one_document(ctx, schema, holder, dump, sdl, enum_kind, label, text, vs, None, lean_batch, "class", seeds=[0, 1, 2])
     if use_lean and lean_batch:
         flush_lean(ctx, lean_batch)
     if id(ctx) in _FRESH:
@@ -557,6 +574,9 @@ FIXED = [
     ("fragment-cycle-behind-two-entries", "{ ...X ...Y } fragment X on Query { ...A } fragment Y on Query { ...X } fragment A on Query { ...B } fragment B on Query { ...A }", {}),
     ("fragment-cycle-behind-entry-nested-field", "{ b { ...Eb } } fragment Eb on Ob { b { ...Ab } } fragment Ab on Ob { b { ...Bb } } fragment Bb on Ob { ...Ab id }", {}),
     ("fragment-cycle-beside-acyclic", "{ ...Loop ...Alpha } fragment Alpha on Query { s } fragment Loop on Query { ...Back } fragment Back on Query { ...Loop }", {}),
+    ("rootless-mutation", "mutation { a }", {}),
+    ("rootless-subscription-fragments", "subscription { ...F } fragment F on Query { s b { id } }", {}),
+    ("rootless-mutation-beside-query", "query Q { a } mutation M { a b { id } }", {}),
     ("fragment-cycle-beside-acyclic-first", "{ ...Alpha ...Loop } fragment Loop on Query { ...Back s } fragment Back on Query { ...Loop ...Alpha } fragment Alpha on Query { s }", {}),
     ("fragment-cycle-beside-acyclic-last", "{ ...Loop ...Zed } fragment Zed on Query { s } fragment Loop on Query { ...Back } fragment Back on Query { ...Loop }", {}),
     ("fragment-self-cycle-beside-acyclic", "{ ...Self ...Alpha } fragment Alpha on Query { s } fragment Self on Query { s ...Self }", {}),
@@ -608,11 +628,121 @@ def fragment_chain(ctx, schema):
             ctx.fail("fragment-chain-rejected:%d" % n, "a valid chain of fragments is rejected", {"sdl": FIXED_SDL, "fragments": n})
 
 
+# One AST field node executed against SEVERAL runtime object types in one request, whose own definitions of the interface
+# field declare DIFFERENT arguments / defaults (valid: extra optional arguments, other defaults). Every runtime type must
+# get the arguments of ITS field definition (per-execution caches keyed by the node alone serve the first type's to all:
+# seeded C05-2 / C04-1). Worlds are fixed seeds, so the class does not depend on the random streams.
+DIVERGENT_SDL = ("type Query { pets: [Pet!]!, pet: Pet, mix: [U] }\n"
+                 "interface Pet { name(up: Boolean = false): String, kin(n: Int = 1): [Pet] }\n"
+                 "type Dog implements Pet { name(up: Boolean = true, extra: Int = 3): String, kin(n: Int = 2, deep: Boolean = false): [Pet], bark: Int }\n"
+                 "type Cat implements Pet { name(up: Boolean = false): String, kin(n: Int = 1): [Pet], lives: Int! }\n"
+                 "type Eel implements Pet { name(up: Boolean = false, volts: Float = 1.5, tag: String = \"e\"): String, kin(n: Int = 7): [Pet] }\n"
+                 "union U = Dog | Cat | Eel\n")
+DIVERGENT = [
+    ("divergent-args-defaults", "{ pets { __typename name } }", {}),
+    ("divergent-args-literal", "{ pets { __typename n: name(up: true) } }", {}),
+    ("divergent-args-variable", "query($u: Boolean){ pets { name(up: $u) } }", {"u": False}),
+    ("divergent-args-inline", "{ pets { ... on Pet { name } } }", {}),
+    ("divergent-args-fragment", "{ pets { __typename ...F } } fragment F on Pet { n: name }", {}),
+    ("divergent-args-nested-list", "{ pets { kin { name kin(n: 3) { name } } } }", {}),
+    ("divergent-args-union", "{ mix { ... on Pet { name } } }", {}),
+    ("divergent-args-merged-nodes", "{ pets { name ... on Dog { name(up: true) bark } } }", {}),
+]
+DIVERGENT_SEEDS = [0, 1, 2, 3, 5, 8, 13, 21]
+
+
+# ---------------------------------------------------------------------------
+# NAMED PROBES of scale (no randomness): documents the PARSER accepts (it nests to ~250 levels) at depth 50 (must be
+# validated and executed) and 200 (today: RecursionError, findings H13a / H13b). A failure at depth 50 has its own
+# signature and is NOT covered by the known findings.
+DEEP_SDL = "type Query { q: Query, f(o: In): Int }\ninput In { n: In, a: Int }\n"
+DEEP_DEPTHS = (50, 200)
+
+
+def deep_document(kind, d):
+    if kind == "selection-set":
+        return "{ " + "q { " * d + "f" + " }" * d + " }"
+    if kind == "input-object-literal":
+        return "{ f(o: " + "{n: " * d + "{a: 1}" + "}" * d + ") }"
+    if kind == "fragment-chain":
+        return "{ ...F0 } " + " ".join("fragment F%d on Query { q { ...F%d } }" % (i, i + 1) for i in range(d)) + " fragment F%d on Query { f }" % d
+    raise ValueError(kind)
+
+
+def deep_outcome(kind, d):
+    """('ok' | 'rejected' | 'validate-raises:<Class>' | 'execute-raises:<Class>' | 'unparseable')"""
+    from py_gql import build_schema, graphql_blocking
+    from py_gql.lang import parse
+    from py_gql.validation import validate_ast
+    schema = build_schema(DEEP_SDL)
+    schema.default_resolver = lambda root, c, info, **a: 1 if info.field_definition.name == "f" else {}
+    text = deep_document(kind, d)
+    try:
+        ast = parse(text)
+    except Exception:  # noqa  (the parser's own limit belongs to C01)
+        return "unparseable"
+    try:
+        v = validate_ast(schema, ast)
+    except RecursionError:
+        return "validate-raises:RecursionError"
+    except Exception as e:  # noqa
+        return "validate-raises:" + type(e).__name__
+    if v.errors:
+        return "rejected"
+    from py_gql import process_graphql_query
+    # both executors the entry points offer: BlockingExecutor (graphql_blocking) and the generic Executor
+    for fn in (graphql_blocking, process_graphql_query):
+        try:
+            r = fn(schema, ast)
+        except RecursionError:
+            return "execute-raises:RecursionError"
+        except Exception as e:  # noqa
+            return "execute-raises:" + type(e).__name__
+        if r.errors or r.data is None:
+            return "errors"
+    return "ok"
+
+
+def deep_probes(ctx):
+    for kind in ("selection-set", "input-object-literal", "fragment-chain"):
+        for d in DEEP_DEPTHS:
+            out = deep_outcome(kind, d)
+            ctx.count()
+            ctx.stat("deep:%s:%d:%s" % (kind, d, out))
+            if out in ("ok", "unparseable"):
+                continue
+            where = "deep-nesting" if d >= 200 else "nesting-%d" % d
+            detail = {"probe": "deep", "deep_kind": kind, "depth": d, "sdl": DEEP_SDL, "document": deep_document(kind, d)[:100] + "...", "outcome": out}
+            if out.startswith("validate-raises:"):
+                ctx.fail("validate-raises:%s:%s:%s" % (out.split(":")[1], where, kind),
+                         "validate_ast raises %s on a parseable document nested %d levels (%s) instead of returning its list of errors"
+                         % (out.split(":")[1], d, kind), detail)
+            elif out.startswith("execute-raises:"):
+                ctx.fail("internal-exception-on-validated-operation:%s:%s" % (out.split(":")[1], ("deep-" if d >= 200 else "%d-" % d) + kind),
+                         "validation accepted a document of depth %d (%s); executing it raised %s" % (d, kind, out.split(":")[1]), detail)
+            else:
+                ctx.fail("deep-probe-%s:%s:%d" % (out, kind, d), "a valid deep document (%s, depth %d) is %s" % (kind, d, out), detail)
+
+
 def fixed_cases(ctx, lean_batch):
+    deep_probes(ctx)
     schema, holder, dump = X.build(FIXED_SDL, 0)
     fragment_chain(ctx, schema)
     for label, text, vs in FIXED:
         one_document(ctx, schema, holder, dump, FIXED_SDL, 0, label, text, vs, None, lean_batch, "fixed")
+    schema, holder, dump = X.build(DIVERGENT_SDL, 0)
+    for label, text, vs in DIVERGENT:
+        one_document(ctx, schema, holder, dump, DIVERGENT_SDL, 0, label, text, vs, None, lean_batch, "fixed", seeds=DIVERGENT_SEEDS)
+    # one field node leading two different merged node lists in one request (seeded C05-12 / C04-11): fixed worlds
+    schema, holder, dump = X.build(LN.FIXED_SDL, 0)
+    for label, text, vs in LN.FIXED_DOCS:
+        one_document(ctx, schema, holder, dump, LN.FIXED_SDL, 0, label, text, vs, None, lean_batch, "fixed", seeds=LN.FIXED_SEEDS)
+    # the same (selection set, fragment) pair compared by the merge rule first below mutually exclusive parents, then in a
+    # non-exclusive context where it conflicts (seeded C05-11): if such a document is accepted, some world shows two
+    # different fields under one response key
+    schema, holder, dump = X.build(OM.FIXED_SDL, 0)
+    for label, text, vs in OM.FIXED_DOCS:
+        one_document(ctx, schema, holder, dump, OM.FIXED_SDL, 0, label, text, vs, None, lean_batch, "fixed", seeds=OM.FIXED_SEEDS)
 
 
 def flush_lean(ctx, batch):
@@ -629,7 +759,19 @@ def flush_lean(ctx, batch):
         if model is None:
             ctx.fail("corr:driver-error", "driver could not answer", c.replay_data({"answer": a}), kind="correspondence")
             continue
-        if a.get("validdoc") is False:
+        # the tie is to ValidDocR (premise of validated_no_internal_error_rootless): `validate_ast` does not check that the
+        # operation's kind has a root type in the schema, so ValidDoc's root clause is NOT implied by acceptance
+        ctx.stat("ops-rooted:%s" % a.get("ops_rooted"))
+        # schema hypotheses of accepted_cannot_go_wrong_checked (SchemaOk, SchemaWf, RootsAreObjects, TypesWf), evaluated by
+        # the driver on the schema of this request: every schema of this check is a valid one
+        # (`schema_checks`: on the description with the built-in scalars listed, the form the bridge theorems speak about;
+        #  `schema_checks_exec`: the executor-side checks on the description the driver executes)
+        ctx.stat("schema-checks:%s/%s" % (a.get("schema_checks"), a.get("schema_checks_exec")))
+        if a.get("schema_checks") is False or a.get("schema_checks_exec") is False:
+            ctx.fail("corr:valid-schema-fails-schemaChecksB", "the computable schema hypotheses of the soundness theorem "
+                     "(Spec/SchemaChecks.lean) are false on a schema that build_schema + validate accept",
+                     c.replay_data({"label": label}), kind="correspondence")
+        if (a.get("validdoc_r") if "validdoc_r" in a else a.get("validdoc")) is False:
             ctx.fail("corr:accepted-but-not-ValidDoc:%s" % (a.get("validdoc_why") or "?"),
                      "validate_ast accepted a document outside the declarative ValidDoc predicate the theorems assume",
                      c.replay_data({"why": a.get("validdoc_why"), "label": label}), kind="correspondence")
@@ -665,6 +807,10 @@ def replay(ctx, data):
     from py_gql.lang import parse
     from py_gql.validation import validate_ast
     inp = data.get("input", data)
+    if inp.get("probe") == "deep":
+        out = deep_outcome(inp["deep_kind"], inp["depth"])
+        print("deep probe %s depth %d: %s" % (inp["deep_kind"], inp["depth"], out))
+        return out in ("ok", "unparseable")
     schema, holder, dump = X.build(inp["sdl"], inp.get("enum_kind", 0))
     text = inp.get("small") or inp["document"]
     ok = True
